@@ -298,3 +298,28 @@ Theorem C02_issued_settled_or_pending : forall cfg s r p c f,
   \/ closed cfg r p c f (tr r (log s)).
 Proof. exact GapC02e.issued_settled_or_pending. Qed.
 Print Assumptions C02_issued_settled_or_pending.
+
+(* ------------------------------------------------------------------------------------------
+   Known finding K3 inside the model (DESIGN.md 12.10). `XCallMod` (Model/ModSvc.v) is the
+   module-service branch of MsgCallService, executed by `xstep` on top of `pstep`; exclusion
+   X-K3 is "the history contains no XCallMod" (`k3_free`).  The statements below are refuted /
+   proved in Proofs/K3.v on concrete reachable witnesses (corpus history W10) by vm_compute. *)
+From Coq Require Import List ZArith Bool Lia.
+From SVC Require Import Base.AMap Base.Res Base.Dec Model.Types Model.Pricing Model.Handlers Model.EndBlock Model.Step Model.ParamStep Model.ModSvc Model.Genesis Proofs.Inv Proofs.ParamChange Proofs.K3.
+Import ListNotations.
+Open Scope Z_scope.
+
+Theorem C02_K3_settled_unpaid_refuted :
+  exists (cfg : Params) (s : State) (o : XOp) (s' : State) (c : CtxId) (r : ReqId) 
+         (prov cons0 : Z),
+           wf_cfg cfg /\
+           Reach cfg s /\
+           is_callmod o = true /\
+           xstep (cfg, s) o = (cfg, s', ROk) /\
+           firstn 8 (log s') =
+           [EvBatchDone c 1; EvRespond r; EvEarn r prov 1; EvTax r 0; EvBatchStart c 1 (height s) 1;
+            EvIssue r prov cons0 1; EvDebit c cons0 0; EvCtxCreated c] /\
+           skipn 8 (log s') = log s /\
+           bal s' (User cons0) = bal s (User cons0) /\ get prov (earned s') = Some 1.
+Proof. exact K3.K3_settled_unpaid_refuted. Qed.
+Print Assumptions C02_K3_settled_unpaid_refuted.
